@@ -72,7 +72,7 @@ def float_queue_post(tier, seed):
 
 
 def main(tier, seed):
-    return icheck.run(PROP, tier, seed, genchart.Profile(p_send=0.6, p_action=0.8, p_contract=0.05), ifam.ScenarioSpec(p_queue=0.5, p_clock=0.2, n_ops=(10, 28), p_mirror=0.45, clock_offset=0.15), icheck.interest_c05, PROOF_FILES, post=float_queue_post(tier, seed), assumptions=['integer times and delays'])
+    return icheck.run(PROP, tier, seed, genchart.Profile(p_send=0.6, p_action=0.8, p_contract=0.05), ifam.ScenarioSpec(p_queue=0.5, p_clock=0.2, n_ops=(10, 28), p_mirror=0.45, clock_offset=0.15, p_fail_bit=0.12, p_continue=0.6), icheck.interest_c05, PROOF_FILES, post=float_queue_post(tier, seed), assumptions=['integer times and delays'])
 
 
 replay = icheck.replay
